@@ -9,11 +9,13 @@ OUT="$WT/_out/confirm.txt"
 echo "== demo WITH change" >> "$OUT"
 cargo test --offline $SPEC >> "$OUT.with.log" 2>&1; echo "rc_with=$?" >> "$OUT"
 grep -E "^test result" "$OUT.with.log" >> "$OUT"
-git stash push -q -- $(git diff --name-only) 
+# NOTE: never `git stash` here - refs/stash is shared by all worktrees of the repository
+git diff > "$WT/_out/confirm_change.diff"
+git checkout -- $(git diff --name-only)
 echo "== demo WITHOUT change" >> "$OUT"
 cargo test --offline $SPEC >> "$OUT.without.log" 2>&1; echo "rc_without=$?" >> "$OUT"
 grep -E "^test result" "$OUT.without.log" >> "$OUT"
-git stash pop -q
+git apply "$WT/_out/confirm_change.diff"
 echo "== full suite WITH change" >> "$OUT"
 cargo test --workspace --offline --no-fail-fast > "$OUT.suite.log" 2>&1; echo "rc_suite=$?" >> "$OUT"
 grep -E "^test .* FAILED|^test result: FAILED|failed" "$OUT.suite.log" | sort | uniq -c | head -20 >> "$OUT"
